@@ -261,21 +261,39 @@ fn declaration_case(style: Style, value: declaration::Value) -> Vec<u8> {
     declaration::Property { name: String::from("n"), value }.write(&mut buf);
     buf.take()
 }
+fn line_breaks(out: &[u8]) -> usize {
+    let mut n = 0;
+    let mut i = 0;
+    while i < out.len() {
+        if out[i] == b'\n' {
+            n += 1;
+        }
+        i += 1;
+    }
+    n
+}
 /// C07: a declaration is written on ONE line whatever kind of value renders
 /// to a text with a line break in it (compressed: no line break at all;
 /// expanded: only the one that ends the declaration).
+fn compressed_declaration(value: declaration::Value) {
+    let out = declaration_case(Style::Compressed, value);
+    assert!(line_breaks(&out) == 0, "compressed: no line break in a declaration");
+    assert!(out.len() >= 6 && out[0] == b'n' && out[1] == b':' && out[2] == b'a' && out[out.len() - 2] == b'b' && out[out.len() - 1] == b';', "compressed: name, colon, the value's text, semicolon");
+}
 #[kani::proof]
 #[kani::stub(crate::output::format::long_indent, crate::output::format::kani_verif::long_indent_by_contract)]
 #[kani::unwind(10)]
 fn c07_declaration_value_has_no_line_break_compressed() {
     use crate::value::Quotes;
-    assert!(declaration_case(Style::Compressed, declaration::Value::Other) == b"n:a b;", "compressed, a list (say): n:a b;");
-    assert!(declaration_case(Style::Compressed, declaration::Value::Literal(declaration::Lit(Quotes::None))) == b"n:a b;", "compressed, an unquoted string");
-    assert!(declaration_case(Style::Compressed, declaration::Value::Literal(declaration::Lit(Quotes::Double))) == b"n:a b;", "compressed, a quoted string");
+    compressed_declaration(declaration::Value::Other);
+    compressed_declaration(declaration::Value::Literal(declaration::Lit(Quotes::None)));
+    compressed_declaration(declaration::Value::Literal(declaration::Lit(Quotes::Double)));
 }
 #[kani::proof]
 #[kani::stub(crate::output::format::long_indent, crate::output::format::kani_verif::long_indent_by_contract)]
 #[kani::unwind(10)]
 fn c07_declaration_value_has_no_line_break_expanded() {
-    assert!(declaration_case(Style::Expanded, declaration::Value::Other) == b"n: a b;\n", "expanded: n: a b; and the newline that ends it");
+    let out = declaration_case(Style::Expanded, declaration::Value::Other);
+    assert!(line_breaks(&out) == 1 && out[out.len() - 1] == b'\n', "expanded: the only line break is the one that ends the declaration");
+    assert!(out.len() >= 8 && out[0] == b'n' && out[1] == b':' && out[out.len() - 2] == b';', "expanded: name, colon, value, semicolon");
 }
